@@ -265,6 +265,62 @@ def check_datamodel_t1(m0: int, v0: int, v1: int, o0: int, o1: int) -> bool:
     return True
 
 
+# ---- renames: the index of a column must not survive under its old name ----------------------------------------------------
+RENAMES = [("b", "c"), ("e", "b"), ("e", "c"), ("c", "b"), ("b", "e"), ("c", "e"), ("stmt_id", "c"), ("c", "stmt_id")]
+COLS3 = ["stmt_id", "b", "e"]
+
+
+def rename_history(r0, r1, v0, v1, q0, q1):
+    """3-column table; equality queries on every column (if q: before the renames / between them), two renames, queries."""
+    rows = [[0, cell(v0), cell(v1)], [1, 1, cell(v1)], [2, cell(v0), 2]]
+    d = dm_mod.DataModel([list(r) for r in rows], columns=list(COLS3))
+    cols = list(COLS3)
+
+    def agree(tag):
+        for ci, c in enumerate(cols):
+            for v in (0, 1, 2):
+                want = [i for i, r in enumerate(rows) if r[ci] is not None and r[ci] == v]
+                got = list(d.query_index_column_value_indices(c, v))
+                if got != want:
+                    return f"{tag}: query_index_column_value_indices({c},{v}) = {got} != scan {want} (columns now {cols})"
+        return None
+    if q0:
+        why = agree("before")
+        if why:
+            return why
+    for n, ri in enumerate((r0, r1)):
+        src, dst = RENAMES[ri]
+        if src not in cols or dst in cols:
+            return None               # not applicable: outside the claim
+        d.rename_column({src: dst})
+        cols[cols.index(src)] = dst
+        if n == 0 and not q1:
+            continue
+        why = agree(f"after rename {n + 1} ({src}->{dst})")
+        if why:
+            return why
+    return None
+
+
+def _pre_rename(r0, r1, v0, v1):
+    return 0 <= r0 < len(RENAMES) and 0 <= r1 < len(RENAMES) and -1 <= v0 <= 2 and -1 <= v1 <= 2 and r0 in SLICE.get("r0", range(len(RENAMES)))
+
+
+def check_datamodel_rename(r0: int, r1: int, v0: int, v1: int, q0: bool, q1: bool) -> bool:
+    """
+    pre: _pre_rename(r0, r1, v0, v1)
+    post: _
+    """
+    use_stub(True)
+    try:
+        why = rename_history(r0, r1, v0, v1, q0, q1)
+    finally:
+        use_stub(False)
+    if why:
+        return fail("rename", r0=r0, r1=r1, v0=v0, v1=v1, q0=q0, q1=q1, why=why)
+    return True
+
+
 def _vals_ok(*vs):
     for v in vs:
         if not (-1 <= v <= 2):
@@ -350,7 +406,24 @@ def canonical_kind(why):
     return why.split("(")[0].split(" ")[0]
 
 
+def replay_rename(cex):
+    out = []
+    for stub in (True, False):
+        use_stub(stub)
+        try:
+            out.append(rename_history(cex["r0"], cex["r1"], cex["v0"], cex["v1"], bool(cex["q0"]), bool(cex["q1"])))
+        finally:
+            use_stub(False)
+    ren = [RENAMES[cex["r0"]], RENAMES[cex["r1"]]]
+    return {"violated": bool(out[1]), "observed": out[1], "with_stub": out[0],
+            "what": f"table [stmt_id,b,e] = [[0,{cex['v0']},{cex['v1']}],[1,1,{cex['v1']}],[2,{cex['v0']},2]]; "
+                    f"{'query all columns; ' if cex['q0'] else ''}rename {ren[0]}; {'query; ' if cex['q1'] else ''}rename {ren[1]}; query -> {out[1]}",
+            "fingerprint": f"datamodel:rename:{ren}"}
+
+
 def replay(func, cex):
+    if func == "check_datamodel_rename":
+        return replay_rename(cex)
     """Native replay on REAL pandas."""
     use_stub(False)
     if func.startswith("check_datamodel"):
@@ -501,7 +574,7 @@ def viewer_history(ops, shape, base=10):
                     return f"read_block({b}).read_block({b2}) visibility differs from nesting"
                 if sub is not None and [r.stmt_id for r in sub] != ids[s2 + 1:e2]:
                     return f"nested read_block({b2}) differs from scan"
-            for op in ("assign_stmt", "call_stmt", "block_start"):
+            for op in ("assign_stmt", "call_stmt", "block_start", "block_end"):
                 want_op = [r.stmt_id for i, r in enumerate(rows) if r.operation == op and s < i < e]
                 if [r.stmt_id for r in blk.query_operation(op)] != want_op:
                     return f"read_block({b}).query_operation({op}) differs from scan"
